@@ -24,6 +24,7 @@ class Case:
     raises: str | None = None            # exception class name, None = normal exit
     ensures: list = field(default_factory=list)  # [(name, lambda ctx -> Bool)]
     exact: bool = False                  # raised class is exactly `raises`
+    exc_fields: dict = field(default_factory=dict)  # attribute of the raised exception -> lambda ctx -> Val
 
 
 @dataclass
